@@ -167,7 +167,8 @@ pub fn check_random(case: &RandomCase, st: &mut Stats) -> Result<(), String> {
     let html = sc.html();
     let cfg = sc.cfg();
     st.sample(|| json!({"agent": cfg.agent_css, "user": cfg.user_css, "html": short(&html, 500), "use_doc_css": sc.use_doc_css}));
-    let colours = reference_colours(&sc.styling, sc.use_doc_css);
+    let eff = sc.effective_styling();
+    let colours = reference_colours(&eff, sc.use_doc_css);
     let c2 = case.clone();
     check_annotations(&html, &cfg, sc.width, &colours, st, &move |st, multi| {
         if multi {
@@ -189,12 +190,17 @@ fn random_case() -> BoxedStrategy<RandomCase> {
                 1usize..=100,
                 prop::bool::weighted(0.85),
                 cssgen::variant(),
+                any::<bool>(),
             )
         })
-        .prop_map(|(mut doc, agent, user, author, inl, width, use_doc_css, variant)| {
+        .prop_map(|(mut doc, agent, user, author, inl, width, use_doc_css, mut variant, repeat)| {
+            // a third of the cases: the author sheet over two <style> elements, half of those with the first repeated
+            if width % 3 == 0 {
+                variant.split = true;
+            }
             let mut next = 0x400000;
             inline_styles(&mut doc, &inl, &mut next);
-            RandomCase { inner: StyledCase { doc, styling: Styling { agent, user, author }, width, use_doc_css, variant: Variant { junk: vec![], ..variant } } }
+            RandomCase { inner: StyledCase { doc, styling: Styling { agent, user, author }, width, use_doc_css, variant: Variant { junk: vec![], repeat, ..variant } } }
         })
         .boxed()
 }
